@@ -432,6 +432,24 @@ Example tail_field_examples :
   end.
 Proof. vm_compute. repeat split; reflexivity. Qed.
 
+(* KEY: the flags / protocol mnemonics of RFC 2535 are accepted on input; with NOKEY flags nothing follows the
+   algorithm (the printed trailing blank is harmless); a key after NOKEY is rejected *)
+Example key_examples :
+  match schema_of 25 with
+  | Some key =>
+      let k1 := [VKey 256 3 5 [] [1; 3; 210; 42]] in
+      let k2 := [VKey 49152 3 8 [] []] in
+      (do text <- record_to_text ex_sty key k1; record_from_text ex_ctx key (schema_chk 25) text) = Ok k1
+      /\ (do text <- record_to_text ex_sty key k2; record_from_text ex_ctx key (schema_chk 25) (text ++ [10])) = Ok k2
+      (* NOKEY|FLAG2 TLS RSASHA256 *)
+      /\ record_from_text ex_ctx key (schema_chk 25)
+           [78;79;75;69;89;124;70;76;65;71;50;32;84;76;83;32;82;83;65;83;72;65;50;53;54] = Ok [VKey 57344 1 8 [] []]
+      (* NOKEY 3 8 AQID *)
+      /\ record_from_text ex_ctx key (schema_chk 25) [78;79;75;69;89;32;51;32;56;32;65;81;73;68] = Lib eSyntax
+  | None => False
+  end.
+Proof. vm_compute. repeat split; reflexivity. Qed.
+
 (* GPOS: three decimal strings kept verbatim; the constructor's checks (_validate_float_string, |latitude| <= 90,
    |longitude| <= 180 as floats) are the cross-field check, shared with the C02 model (SchemaM.gpos_ok) *)
 Example gpos_examples :
